@@ -624,7 +624,37 @@ impl Sim for SimC7 {
 // C04
 // ================================================================================================
 
-const ASSET_POOL: [&str; 5] = ["btc", "eth", "sol", "usdt", "usd"];
+/// exchange asset names; the last two differ from "btc" / "usdt" only in letter case (exchanges do list
+/// e.g. WBTC next to wBTC): they are distinct assets with their own internal names
+const ASSET_POOL: [&str; 7] = ["btc", "eth", "sol", "usdt", "usd", "BTC", "USDT"];
+
+fn asset_c4(sym: &str) -> barter_instrument::asset::Asset {
+    let internal = if sym.chars().any(|c| c.is_uppercase()) { format!("{}_v2", sym.to_lowercase()) } else { sym.to_string() };
+    barter_instrument::asset::Asset {
+        name_internal: barter_instrument::asset::name::AssetNameInternal::from(internal.as_str()),
+        name_exchange: sym.into(),
+    }
+}
+
+fn inst_c4(ex: ExchangeId, b: &str, q: &str, perp_settle: Option<&str>) -> Instrument<ExchangeId, barter_instrument::asset::Asset> {
+    use barter_instrument::instrument::{kind::{InstrumentKind, perpetual::PerpetualContract}, name::InstrumentNameInternal, quote::InstrumentQuoteAsset};
+    let (ba, qa) = (asset_c4(b), asset_c4(q));
+    let suffix = if perp_settle.is_some() { "_perp" } else { "" };
+    let name_exchange = barter_instrument::instrument::name::InstrumentNameExchange::from(format!("{b}_{q}{suffix}"));
+    let name_internal = InstrumentNameInternal::new(format!("{}-{}_{}{suffix}", ex.as_str(), ba.name_internal, qa.name_internal));
+    Instrument::new(
+        ex,
+        name_internal,
+        name_exchange,
+        barter_instrument::Underlying::new(ba, qa),
+        InstrumentQuoteAsset::UnderlyingQuote,
+        match perp_settle {
+            Some(s) => InstrumentKind::Perpetual(PerpetualContract { contract_size: rust_decimal::Decimal::ONE, settlement_asset: asset_c4(s) }),
+            None => InstrumentKind::Spot,
+        },
+        None,
+    )
+}
 
 #[derive(Clone, Debug, Serialize, Deserialize, PartialEq)]
 pub struct InstC4 {
@@ -652,6 +682,9 @@ pub enum OpC4 {
     /// two open requests in flight at once on two instruments of one exchange, sharing the client
     /// order id (orders are identified by exchange, instrument, strategy and client order id)
     OpenPair { a: usize, b: usize },
+    /// the exchange reports a balance for an asset the engine does not track, whose name is a tracked
+    /// asset's name plus a wallet suffix ("btc.f", "usdt.hold"): nothing may change
+    UntrackedWalletBalance { asset: usize, suffix: u8, total: i64 },
 }
 
 #[derive(Clone, Debug, Serialize, Deserialize)]
@@ -690,7 +723,7 @@ fn c4_instruments(sc: &ScenarioC4) -> IndexedInstruments {
         .iter()
         .filter(|i| i.base != i.quote)
         .filter(|i| {
-            let k = (i.ex % 4, i.base % 5, i.quote % 5, i.perp);
+            let k = (i.ex % 4, i.base % 7, i.quote % 7, i.perp);
             if seen.contains(&k) {
                 false
             } else {
@@ -699,12 +732,8 @@ fn c4_instruments(sc: &ScenarioC4) -> IndexedInstruments {
             }
         })
         .map(|i| {
-            let (b, q) = (ASSET_POOL[i.base % 5], ASSET_POOL[i.quote % 5]);
-            if i.perp {
-                perp_settled(EXS[i.ex % 4], b, q, i.settle.map(|s| ASSET_POOL[s % 5]).unwrap_or(q))
-            } else {
-                spot(EXS[i.ex % 4], b, q)
-            }
+            let (b, q) = (ASSET_POOL[i.base % 7], ASSET_POOL[i.quote % 7]);
+            inst_c4(EXS[i.ex % 4], b, q, i.perp.then(|| i.settle.map(|s| ASSET_POOL[s % 7]).unwrap_or(q)))
         })
         .collect();
     IndexedInstruments::new(v)
@@ -740,8 +769,9 @@ impl Sim for SimC4 {
         for e in 0..n_ex {
             let n = 1 + rng.usize(5);
             for _ in 0..n {
-                let base = rng.usize(3);
-                let quote = 3 + rng.usize(2);
+                // (multi-exchange sub-batch: now and then a name that differs from another only in case)
+                let base = if sub == 1 && rng.chance(1, 8) { 5 } else { rng.usize(3) };
+                let quote = if sub == 1 && rng.chance(1, 8) { 6 } else { 3 + rng.usize(2) };
                 let is_perp = rng.chance(1, 4);
                 let cand = InstC4 {
                     ex: e,
@@ -749,7 +779,7 @@ impl Sim for SimC4 {
                     quote,
                     perp: is_perp,
                     // sometimes settled in an asset that is neither underlying
-                    settle: if is_perp && rng.chance(1, 2) { Some(rng.usize(5)) } else { None },
+                    settle: if is_perp && rng.chance(1, 2) { Some(rng.usize(if sub == 1 { 7 } else { 5 })) } else { None },
                 };
                 // one instrument per (exchange, name): the settlement asset is not part of the name
                 if !insts.iter().any(|i: &InstC4| i.ex == cand.ex && i.base == cand.base && i.quote == cand.quote && i.perp == cand.perp) {
@@ -782,10 +812,17 @@ impl Sim for SimC4 {
             ops.push(match rng.below(6) {
                 0 => OpC4::Open { inst: rng.usize(n_inst) },
                 1 => OpC4::Cancel { inst: rng.usize(n_inst) },
-                2 | 3 => OpC4::Balance {
+                2 => OpC4::Balance {
                     asset: rng.usize(n_assets),
                     total: rng.range(1, 10_000),
                 },
+                3 => {
+                    if rng.chance(1, 4) {
+                        OpC4::UntrackedWalletBalance { asset: rng.usize(n_assets), suffix: rng.below(3) as u8, total: rng.range(1, 10_000) }
+                    } else {
+                        OpC4::Balance { asset: rng.usize(n_assets), total: rng.range(1, 10_000) }
+                    }
+                }
                 4 => {
                     if sub == 1 && rng.chance(1, 3) {
                         OpC4::ForeignOrderReport { inst: rng.usize(n_inst) }
@@ -844,6 +881,13 @@ impl Sim for SimC4 {
             }};
         }
 
+        if instruments.assets().iter().any(|a| {
+            instruments.assets().iter().any(|b| {
+                a.key != b.key && a.value.exchange == b.value.exchange && a.value.asset.name_exchange.name().to_lowercase() == b.value.asset.name_exchange.name().to_lowercase()
+            })
+        }) {
+            stats.probe("names_differing_only_in_case");
+        }
         // ---- setup part: index <-> name round trip on every exchange's map -------------------
         let maps: Vec<_> = instruments
             .exchanges()
@@ -1037,7 +1081,7 @@ impl Sim for SimC4 {
                     | OpC4::OrderReport { inst }
                     | OpC4::ForeignOrderReport { inst }
                     | OpC4::Trade { inst, .. } => *inst < n_inst,
-                    OpC4::Balance { asset, .. } => *asset < n_assets,
+                    OpC4::Balance { asset, .. } | OpC4::UntrackedWalletBalance { asset, .. } => *asset < n_assets,
                     OpC4::OpenPair { a, b } => {
                         *a < n_inst
                             && *b < n_inst
@@ -1057,6 +1101,7 @@ impl Sim for SimC4 {
                     OpC4::ForeignOrderReport { inst } => format!("fr{inst}"),
                     OpC4::Trade { inst, .. } => format!("t{inst}"),
                     OpC4::OpenPair { a, .. } => format!("p{}", instruments.instruments()[*a].value.exchange.key.0),
+                    OpC4::UntrackedWalletBalance { asset, .. } => format!("ub{asset}"),
                 });
                 let recv_before: Vec<usize> = clients.iter().map(|c| c.0.received.lock().unwrap().len()).collect();
                 let before = engine.state.clone();
@@ -1171,6 +1216,35 @@ impl Sim for SimC4 {
                         for inst in [*a, *b] {
                             if !engine.state.instruments.instrument_index(&InstrumentIndex(inst)).orders.0.contains_key(&ClientOrderId::new(cid.as_str())) {
                                 return (Some(("X7_event_applied_to_wrong_item".to_string(), k, format!("order {cid} for instrument {inst} is not tracked under that instrument after its response"))), lines, sigs, probes, 0);
+                            }
+                        }
+                    }
+                    OpC4::UntrackedWalletBalance { asset, suffix, total } => {
+                        let a = &instruments.assets()[*asset];
+                        let e = instruments.find_exchange_index(a.value.exchange).unwrap().0;
+                        if !traded[e] {
+                            continue;
+                        }
+                        let name = format!("{}.{}", a.value.asset.name_exchange.name(), ["f", "s", "hold"][*suffix as usize % 3]);
+                        if instruments.assets().iter().any(|x| x.value.exchange == a.value.exchange && x.value.asset.name_exchange.name().as_str() == name) {
+                            continue;
+                        }
+                        probes.push("balance_for_untracked_wallet_of_tracked_asset");
+                        let _ = acct_txs[e].send(UnindexedAccountEvent {
+                            exchange: a.value.exchange,
+                            kind: AccountEventKind::BalanceSnapshot(Snapshot(AssetBalance {
+                                asset: barter_instrument::asset::name::AssetNameExchange::from(name.as_str()),
+                                balance: Balance::new(dec(*total), dec(*total)),
+                                time_exchange: ts(t_ms),
+                            })),
+                        });
+                        tokio::time::sleep(Duration::from_millis(1)).await;
+                        while let Ok(ev) = merged_rx.rx.try_recv() {
+                            let _ = engine.process(EngineEvent::<DataKind>::Account(ev));
+                        }
+                        for x in 0..n_assets {
+                            if before.assets.asset_index(&AssetIndex(x)).balance != engine.state.assets.asset_index(&AssetIndex(x)).balance {
+                                return (Some(("X2_foreign_name_translated".to_string(), k, format!("a balance for {name}, which exchange {e} does not track, changed the balance of asset index {x} = ({}, {})", instruments.assets()[x].value.exchange, instruments.assets()[x].value.asset.name_exchange))), lines, sigs, probes, 0);
                             }
                         }
                     }
@@ -1432,6 +1506,8 @@ impl Sim for SimC4 {
             "request_to_non_first_exchange",
             "account_snapshot_lists_instruments",
             "two_requests_share_client_order_id",
+            "balance_for_untracked_wallet_of_tracked_asset",
+            "names_differing_only_in_case",
             "asset_name_shared_between_exchanges",
             "instrument_name_shared_between_exchanges",
             "request_for_untraded_exchange",
